@@ -27,6 +27,10 @@ SPECK = {"cart1": (13,), "cart2": (10, 12), "cart3": (6, 6, 7), "polar": (0,), "
 def make_grid(fam, per):
     from pde import CartesianGrid, CylindricalSymGrid, PolarSymGrid, SphericalSymGrid
 
+    if fam == "cart1m":  # room for many droplets
+        return CartesianGrid([(0.0, 208.0)], [208], periodic=per)
+    if fam == "cart2m":
+        return CartesianGrid([(0.0, 48.0), (0.0, 40.0)], [48, 40], periodic=per)
     if fam == "cart1":
         return CartesianGrid([(-1.0, 15.0)], [16], periodic=per)
     if fam == "cart2":
@@ -51,6 +55,14 @@ def make_field(grid, fam, image):
 
     if image == "empty":
         return ScalarField(grid, 0.0), 0
+    if isinstance(image, str) and image.startswith("many:"):
+        # n droplets on a regular lattice (pitch 8 cells), the last ones smaller than the first
+        n = int(image.split(":")[1])
+        if fam == "cart1m":
+            ds = [DiffuseDroplet([4.0 + 8.0 * k], 2.4 - 0.6 * (k % 3) / 2, 0.7) for k in range(n)]
+        else:
+            ds = [DiffuseDroplet([4.0 + 8.0 * (k % 6), 4.0 + 8.0 * (k // 6)], 2.6 - 0.5 * (k % 3) / 2, 0.8) for k in range(n)]
+        return Emulsion(ds).get_phasefield(grid), n
     if fam == "cart1":
         ds = [DiffuseDroplet([2.2], 1.6, 0.6), DiffuseDroplet([7.4], 1.4, 0.6), DiffuseDroplet([11.9], 1.2, 0.5)]
     elif fam == "cart2":
@@ -110,9 +122,19 @@ class C19(Property):
                     jobs.append({"domain": "configuration-cube", "family": fam, "periodic": per, "modes": modes, "refine": refine})
         # interleave cheap and expensive jobs over the worker buckets
         jobs.sort(key=lambda j: (j["refine"], j["family"] == "cart3", j["modes"]), reverse=True)
+        # refinement spread over worker processes, with more droplets than any per-worker batch
+        for fam, per in (("cart1m", [True]), ("cart2m", [False, True])):
+            for n in (9, 13, 21, 26):
+                jobs.append({"domain": "parallel-refinement", "family": fam, "periodic": per, "n": n})
         return jobs
 
     def expand(self, job):
+        if job["domain"] == "parallel-refinement":
+            for modes in ((0,) if job["family"] == "cart1m" else (0, 2)):
+                for width in WIDTHS:
+                    for procs in (2, 3):
+                        yield {"family": job["family"], "periodic": job["periodic"], "modes": modes, "refine": True, "interface_width": width, "threshold": 0.5, "image": f"many:{job['n']}", "num_processes": procs}
+            return
         aniso = job["family"] in ("cart2a", "cyla")  # the two extra grids: reduced product (two threshold rules, four images)
         for width in WIDTHS:
             for thr in THRESHOLDS[:2] if aniso else THRESHOLDS:
@@ -130,6 +152,9 @@ class C19(Property):
         field, n_true = make_field(grid, fam, spec["image"])
         ctx.cls(fam, f"modes{modes}", f"refine:{refine}", f"width:{width}", f"thr:{spec['threshold']}", f"image:{spec['image']}")
         kwargs = dict(threshold=spec["threshold"], modes=modes, interface_width=width, refine=refine)
+        if spec.get("num_processes"):
+            kwargs["num_processes"] = spec["num_processes"]
+            ctx.cls(f"processes:{spec['num_processes']}")
         if (modes + len(spec["image"]) + len(fam)) % 3 == 0:
             # the same request with numpy scalars, as they come out of array computations (e.g. `for modes in np.arange(...)`)
             ctx.cls("numpy-scalar-arguments")
